@@ -13,6 +13,10 @@ def hook_commits():
 
 # id -> (technique, level text, level note, design ref)
 CHECKS = {
+ "C02": ("rapid-generated cascade trees x worker counts x perturbation plans over monitor/task/pool hook points; history invariants over stamps recorded by the rule actions; Go API and ECAL addEventAndWait routes",
+         "Exploration with an owned schedule at the hook points. Cascade trees (<= 25 events, depth <= 4, fan-out <= 4, 1-3 rules per event kind, failing rules and skipped non-triggering children at generated positions) are run 1-6 at a time from separate goroutines on 1-16 workers under both failOnFirstError settings, with a generated perturbation plan (directed holds between the counter decrement and the finished notification, between SetErrors and Finish, between Push and Signal, plus random yield/sleep/hold rules). Invariants when AddEventAndWait returns: every expected action has a finish stamp below the return stamp and none starts later; no unexpected action ran; every monitor handed out with an event is finished; AllErrors is exactly the expected set of (event, rule) pairs, each carrying that action's own error value and event, none from another cascade; after quiescence the finish handler ran exactly once and no action ran twice. One case in five goes through ECAL source (sinks that addEvent, main program addEventAndWait; report type/detail/data/event kind per failing sink). Liveness ('it does return') by the stuck-state rule: all workers idle, no active hold, three identical samples, bound >= 5 s.",
+         "Interleavings are sampled, not enumerated; windows at hook points are reached deterministically by directed plans. Root events are always triggering (a skipped root has no cascade).",
+         "DESIGN.md 4/C02, 2.6"),
  "C03": ("exhaustive operator-pair enumeration + rapid type-directed expression trees against an independent reference evaluator and a parse-structure oracle",
          "Exploration. All 19x19 binary operator nestings on either side, all prefix x binary / prefix x prefix combinations (each printed with the minimal parentheses the DOCUMENTED precedence requires and fully parenthesised) with well-typed operands and one ill-typed operand of every other kind per slot are enumerated completely; random type-directed trees to depth 6 add redundant parentheses, layout and keyword-case variation. Two oracles: the tree ECAL parsed must equal the generated tree (precedence/associativity independent of values) and Eval must equal the harness's own evaluator (bit-exact floats) or fail with the documented error kind naming the operand. Behaviour the references leave open (cross-kind ordering/equality, %, / by zero, short-circuit over a failing operand) is discarded and counted.",
          "Relative to internal/lang (the harness's reading of ecal.md and the property text; shares no code with /repo). Depth beyond 6 and operands outside the fixed universe are not explored.",
